@@ -25,7 +25,7 @@
                            a started batch b and [produced (log of b) (keys of b) (key of cl) o]. *)
 From Coq Require Import List Arith NArith Bool.
 Import ListNotations.
-Require Import Aiuti.Case_Batcher Aiuti.Case_Batcher_Sound Aiuti.Case_Batcher_Basic Aiuti.Batcher Aiuti.BatcherLimits Aiuti.BatcherTime Aiuti.BatcherInv Aiuti.BatcherProps.
+Require Import Aiuti.Case_Batcher Aiuti.Case_Batcher_Sound Aiuti.Case_Batcher_Basic Aiuti.BatcherSim Aiuti.Case_Batcher_C04 Aiuti.Batcher Aiuti.BatcherLimits Aiuti.BatcherTime Aiuti.BatcherInv Aiuti.BatcherProps.
 
 (* Each caller gets exactly its own outcome.  If the trace says caller i completed
    with outcome o, then caller i's key is the key of its call, the item that carries
@@ -110,6 +110,22 @@ Theorem monitor_basic_sound :
     forall b items t, In (BatchStart b items t) os -> 1 <= length items /\ NoDup (map fst items).
 Proof. exact ok_basic_sound. Qed.
 Print Assumptions monitor_basic_sound.
+
+(* COMPLETENESS of the FULL monitor ok_C04 — the basic conjuncts, late answers = exactly the
+   outcomes the script makes the batch function produce for the waiting callers' keys in
+   that step, immediate answers = the latest outcome produced for the key, Cancelled only
+   for the caller a Cancel names, and the final rule (the list of callers still waiting is
+   the monitor's; nobody waits once every batch ended and batch_timeout elapsed since the
+   last call) — on event lists without Chain events, for batch_timeout > 0: the monitor
+   accepts the canonical trace of the model together with the model's waiting list, for
+   every configuration and every such event list.  Proof: Case_Batcher_C04.v, on top of the
+   simulation of Case_Batcher_C11.v.  PARTIAL only in that Chain events are excluded. *)
+Theorem monitor_complete_nochain :
+  forall c evs, cfg_ok c -> (0 < c_bt c)%N -> Forall ev_ok evs ->
+  forallb (fun e => negb (is_chain e)) evs = true ->
+  ok_C04 (BCase c evs (map canon (fst (run c evs))) (waiting_callers (snd (run c evs)))) = true.
+Proof. exact ok_C04_complete. Qed.
+Print Assumptions monitor_complete_nochain.
 
 (* Soundness of the full monitor, PARTIAL.  The trace monitor ok_C04 (Case_Batcher.v) that judges
    the implementation's observed trace is independent of the model.  Proved here:
